@@ -148,7 +148,15 @@ def embedded(ctx, rule):
     ctx.check(ok, rule, b.path, "data:->decode", "a reference whose URL starts with 'data:' is decoded with decode_data_url", detail=str(calls))
     g = ctx.body("detector::SourceMapRef::get_url")
     rets = sorted(q.shape(g.expr_of_call(t)) for bi, t in g.calls())
-    ctx.check(rets == ["String::as_str(legacyref(arg1))", "String::as_str(ref(arg1))"], rule, g.path, "get_url", "get_url returns the stored URL of either form", detail=str(rets))
+    ok = rets == ["String::as_str(legacyref(arg1))", "String::as_str(ref(arg1))"]
+    if not ok and len(rets) == 1:
+        # one arm for both variants (`Ref(url) | LegacyRef(url) => url.as_str()`)
+        t0 = [t for bi, t in g.calls()][0]
+        src = q.root_local(q.arg_expr(g, t0, 0))
+        ds = sorted(sh for sh, _, _ in q.def_shapes(g, src, {})) if src is not None else []
+        ok = q.nice(t0.get("callee")) in ("String::as_str", "Deref::deref", "String::as_ref") and ds == ["legacyref(arg1)", "ref(arg1)"]
+        rets = rets + ds
+    ctx.check(ok, rule, g.path, "get_url", "get_url returns the stored URL of either form", detail=str(rets))
 
 
 def detection(ctx, rule):
@@ -288,8 +296,9 @@ def hermes_state(ctx, rule):
     ctx.check(sorted(sp) == sorted(["str::split(%s.mappings,59)" % ENTRY, "str::split(try(Iterator::next(LINES)),44)"]), rule, fn, "mappings:same-entry",
               "the decoded text is the mappings string of that same entry, split on ';', each piece split on ','", detail=str(sp))
     h = ctx.body("hermes::decode_hermes")
-    qs = [bi for bi, t in h.calls() if q.nice(t.get("callee")) == "Try::branch"]
-    ctx.check(len(qs) == 2, rule, h.path, "two-?", "decode_hermes itself fails only for a missing payload or a failing regular decode", detail=str(len(qs)))
+    from rules.common import residual_blocks as _rb, result_blocks as _resb
+    exits = len(set(_rb(h))) + len(set(_resb(h, "Err")))
+    ctx.check(exits == 2, rule, h.path, "two-?", "decode_hermes itself fails only for a missing payload or a failing regular decode (two error exits)", detail=str(exits))
     fm = [sh for l in sorted(h.var_names) for sh, _, _ in q.def_shapes(h, l, {}) if "closure:decode_hermes::{closure#0}" in sh and sh.startswith("Iterator::collect(")]
     ctx.check(len(fm) == 1 and q.wild("Iterator::collect(Iterator::map(slice::iter(*x_facebook_sources*),closure:decode_hermes::{closure#0}))", fm[0]), rule, h.path, "one-per-source",
               "one function map (or None) per x_facebook_sources entry, in order", detail=str(fm)[:200])
@@ -324,7 +333,13 @@ def hermes_lookup(ctx, rule):
     ctx.check(ok, rule, fn, "name", "the name is names.get(mapping.name_index) (non-panicking)", detail=str(nm)[:200])
     g = ctx.body("hermes::SourceMapHermes::get_original_function_name")
     calls = [q.shape(g.expr_of_call(t)) for bi, t in g.calls() if t.get("resolved_local")]
-    ctx.check(calls == ["SourceMap::lookup_token(arg1.sm,0,arg2)", "SourceMapHermes::get_scope_for_token(arg1,try(SourceMap::lookup_token(arg1.sm,0,arg2)))"], rule, g.path, "bytecode-offset",
+    LK = "SourceMap::lookup_token(arg1.sm,0,arg2)"
+    ok = calls == [LK, "SourceMapHermes::get_scope_for_token(arg1,try(%s))" % LK]
+    if not ok:
+        # `lookup(..).and_then(|token| self.get_scope_for_token(token))`
+        allc = [q.shape(g.expr_of_call(t)).replace("^", "") for bi, t in g.calls()]
+        ok = calls == [LK] and "Option::and_then(%s,\u03bb(SourceMapHermes::get_scope_for_token(arg1,p1)))" % LK in allc
+    ctx.check(ok, rule, g.path, "bytecode-offset",
               "a bytecode offset is looked up as (line 0, column offset) and resolved through the scope lookup", detail=str(calls))
     dm = ctx.body("types::DecodedMap::get_original_function_name")
     hc = [(bi, q.shape(dm.expr_of_call(t))) for bi, t in dm.calls() if q.nice(t.get("callee")) == "SourceMapHermes::get_original_function_name"]
